@@ -43,6 +43,43 @@ TEXT.update({
             "u128 oracle; requires AVX-512F"),
 })
 
+TEXT.update({
+    "C16": ("wrappers", "generated thunk per declared overload, schoolbook cubic oracle per element, sentinel arenas (stray write / stray read), header re-parse against committed table",
+            "All 159 batched/AVX2/AVX-512 cubic-extension overloads parsed from the current header are called through exact-signature thunks with operands "
+            "placed by strides / index arrays in sentinel arenas; every designated coefficient compared with the scalar oracle, every other cell must be untouched, "
+            "a second call with another sentinel must give identical bits; prod/prod512/asan/asan512 builds. A changed overload set makes the run inconclusive.",
+            "expected behaviour is the naming convention of the header (digits = operand kinds, c = constant), not any single definition; stray reads that stay inside the arena and do not change results are invisible"),
+    "C17": ("wrappers", "generated thunk per declared overload, u128 oracle per lane, sentinel arenas, guard-page/framed buffers for parcpy/parSetZero",
+            "All 160 defined copy/add/sub/mul _batch/_avx/_avx512 overloads (table re-derived from the header at check time; the one declared-but-undefined overload is link-probed) "
+            "executed with strided / indexed / broadcast / register operands in sentinel arenas; parcpy/parSetZero over the size x thread-argument grid (INT_MIN, -1, 0 included) in guard-page buffers.",
+            "family convention from parameter names is the specification; overlapping result positions excluded; libgomp team sizes capped at 1024"),
+})
+
+TEXT.update({
+    "C03": ("ntt", "DFT oracle over an exhaustive small-configuration lattice + sampled large sizes, Freivalds random columns, guard-page buffers, crash attribution, hook schedule log",
+            "Every (maxDomain, size, ncols, nphase, nblock, buffer, alias) combination up to 2^6 (quick) / 2^9 (thorough) and samples up to 2^13 / 2^20 (+2^22) is executed on the "
+            "pthread OpenMP stand-in with permuted member order, a 5% slice on real libgomp and a slice under ASan/UBSan, and compared at every output position with an "
+            "independent DFT; source-unchanged, no-op (size 0 / 0 columns), null destination and abort/crash are observed per configuration.",
+            "pinned root table (self-checked); one random column per configuration speaks for all inputs only because the transform is linear and data independent (monitored, not proved)"),
+    "C04": ("ntt", "inverse-DFT oracle over the same lattice, mixed-configuration round trips",
+            "Same lattice as C03 with the inverse oracle (n^-1, w^-1), null destination = in place, plus INTT(NTT(x)) and NTT(INTT(x)) with independently drawn "
+            "configurations and objects for the two legs.",
+            "as C03"),
+    "C05": ("ntt", "LDE oracle (interpolate, evaluate at 7*w^k by Horner) over the (N, N_ext) lattice, in place and out of place",
+            "All N<=N_ext up to 2^6 (quick) / 2^10 (thorough) x ncols x nphase x nblock x buffer x in-place/out-of-place x object size, samples up to 2^12 / 2^20; "
+            "includes the on-site zero-padding permutation (even phases, one block) that aborted on the pinned tree.",
+            "as C03; garbage in rows >= N of an in-place buffer must not influence the result"),
+    "C19": ("ntt", "call-history differential: shared object vs freshly constructed object vs oracle, shortest failing prefix as witness",
+            "3000 (quick) / 40000 (thorough) call sequences of 2-24 NTT/INTT/extendPol calls on one object (two interleaved objects with different thread counts in a fifth "
+            "of them), every ordered pair of call kinds and N-grows / N-shrinks extendPol pairs required to occur; also under ASan (stale-table over-reads) and on real libgomp.",
+            "a call where both the fresh and the shared object disagree with the oracle is not counted against C19 (it belongs to C03-C05)"),
+    "C20": ("ptxemu", "concrete interpretation of the real inline-PTX text of gl64_t.cuh on the host (both __CUDA_ARCH__ paths, fully and partially reduced), u128 oracle, table row checks",
+            "tools/ptx_rewrite.py turns every asm statement of the current gl64_t.cuh into a call of a concrete PTX interpreter (23 opcodes, carry flag, scoped predicates); "
+            "the device field type's + - unary- * (element and 32-bit word) sqr pow shifts reciprocal reductions and conversions are compared with the oracle on boundary-directed "
+            "operands; omegas/omegas_inv/domain_size_inverse are extracted from ntt_goldilocks.cuh and checked row by row against the CPU table and the pinned roots.",
+            "trusted base: the interpreter's reading of the PTX ISA (self-tested against hand-computed carry cases) and the rewriter; ptxas/SASS, kernels and real devices are out of reach (no GPU, no nvcc)"),
+})
+
 NOT_YET = "check not built yet in this revision of /verif (planned, see DESIGN.md section 3)"
 
 
